@@ -4,6 +4,7 @@ import (
 	"fmt"
 	"hash/fnv"
 	"sort"
+	"strings"
 	"sync"
 
 	"github.com/sarchlab/akita/v4/sim"
@@ -21,6 +22,7 @@ type WfTrace struct {
 	Count int      `json:"count"`
 	Hash  uint64   `json:"hash"`
 	PCs   []uint32 `json:"pcs,omitempty"` // kept only below fullTraceLimit
+	CU    string   `json:"cu,omitempty"`  // name of the compute unit that executed the wavefront (placement; not part of Key)
 }
 
 const fullTraceLimit = 4 << 20 // executed instructions kept verbatim per run
@@ -39,6 +41,7 @@ type pcRecorder struct {
 
 type wfRec struct {
 	key    string
+	cu     string
 	entry  uint64
 	nextPC uint64 // emu only
 	pcs    []uint32
@@ -48,7 +51,7 @@ func newPCRecorder() *pcRecorder {
 	return &pcRecorder{launches: map[uint64]int{}, wfs: map[*kernels.Wavefront]*wfRec{}}
 }
 
-func (r *pcRecorder) rec(k *kernels.Wavefront) *wfRec {
+func (r *pcRecorder) rec(k *kernels.Wavefront, cu string) *wfRec {
 	w := r.wfs[k]
 	if w != nil {
 		return w
@@ -61,6 +64,7 @@ func (r *pcRecorder) rec(k *kernels.Wavefront) *wfRec {
 	entry := k.Packet.KernelObject + k.CodeObject.KernelCodeEntryByteOffset
 	w = &wfRec{
 		key:    fmt.Sprintf("L%04d/wg(%d,%d,%d)/wf%d", ln, k.WG.IDX, k.WG.IDY, k.WG.IDZ, k.FirstWiFlatID),
+		cu:     cu,
 		entry:  entry,
 		nextPC: entry,
 	}
@@ -83,7 +87,11 @@ func (r *pcRecorder) Func(ctx sim.HookCtx) {
 		return
 	}
 	r.mu.Lock()
-	w := r.rec(wf.Wavefront)
+	cuName := ""
+	if n, ok := ctx.Domain.(interface{ Name() string }); ok {
+		cuName = n.Name()
+	}
+	w := r.rec(wf.Wavefront, cuName)
 	r.add(w, w.nextPC)
 	w.nextPC = wf.PC()
 	r.mu.Unlock()
@@ -104,9 +112,20 @@ func (r *pcRecorder) StartTask(task tracing.Task) {
 		return
 	}
 	r.mu.Lock()
-	w := r.rec(wf.Wavefront)
+	w := r.rec(wf.Wavefront, cuOf(task.Location))
 	r.add(w, wf.PC())
 	r.mu.Unlock()
+}
+
+// cuOf cuts the execution unit off an "inst" task's location
+// ("GPU[1].SA[8].CU[0].Scalar" -> "GPU[1].SA[8].CU[0]").
+func cuOf(loc string) string {
+	if i := strings.LastIndex(loc, ".CU["); i >= 0 {
+		if j := strings.Index(loc[i:], "]"); j >= 0 {
+			return loc[:i+j+1]
+		}
+	}
+	return loc
 }
 
 func (r *pcRecorder) StepTask(tracing.Task)          {}
@@ -140,7 +159,7 @@ func (r *pcRecorder) result() (wfs []WfTrace, total int) {
 			b[0], b[1], b[2], b[3] = byte(pc), byte(pc>>8), byte(pc>>16), byte(pc>>24)
 			h.Write(b[:])
 		}
-		t := WfTrace{Key: w.key, Count: len(w.pcs), Hash: h.Sum64()}
+		t := WfTrace{Key: w.key, Count: len(w.pcs), Hash: h.Sum64(), CU: w.cu}
 		if keep {
 			t.PCs = w.pcs
 		}
